@@ -174,7 +174,11 @@ def random_history(rng, A, cls, kw, length, multi=False, pick=False, unsat_core=
             elif q in ("min", "max"):
                 H.append([q, s, expr(), rng.random() < 0.5, extra()])
             elif q == "solution":
-                H.append([q, s, expr(), BVV(rng.randrange(m + 1), W), extra(), rng.random() < 0.5])
+                if rng.random() < 0.25:
+                    # symbolic value: its variables may live in another group of constraints than the expression's
+                    H.append([q, s, expr(), rng.choice([BVS(n, w) for n, w in A["vars"] if w == W] + [expr()]), extra(), True])
+                else:
+                    H.append([q, s, expr(), BVV(rng.randrange(m + 1), W), extra(), rng.random() < 0.5])
             else:
                 c = rng.choice(A["cons"])
                 if truthy and rng.random() < 0.5:
@@ -227,7 +231,10 @@ def random_history(rng, A, cls, kw, length, multi=False, pick=False, unsat_core=
                     continue
                 H.extend(mops)
         elif r < 0.97 and unsat_core:
-            H.append(["unsat_core", s])
+            # sometimes relative to extra constraints (a core that depends on them must not be remembered)
+            H.append(["unsat_core", s] + ([extra()] if rng.random() < 0.35 else []))
+            if len(H[-1]) > 2 and rng.random() < 0.7:
+                H.append(["unsat_core", s])
         elif multi and len(live) >= 2 and r < 0.985:
             cand = [i for i in live if i != s]
             others = rng.sample(cand, 2) if len(cand) >= 2 and rng.random() < 0.4 else [rng.choice(cand)]
@@ -565,7 +572,9 @@ def run_history(H, vars_, tid, cfg, step_hook=None):
                 # the simplified forms simplify() put in place of added ones: those are "tracked constraints" too
                 snapshot_held(s, sol)
                 e["scons"] = list(ever_held[s].values())
-                core = sol.unsat_core()
+                xc = op[2] if len(op) > 2 else []
+                e["extra"] = xc
+                core = sol.unsat_core(extra_constraints=[B(c) for c in xc]) if xc else sol.unsat_core()
                 e["rets"] = [TM.ser(c, ann=bool(c.annotations)) if isinstance(c, claripy.ast.Base)
                              else ["NOTAST", type(c).__name__, [], []] for c in core]
             elif call == "add_replacement":
